@@ -338,25 +338,69 @@ func c09self(w *World, r *Report, s *Site, gets []*ssa.Call, tr *Tracer) {
 	for _, g := range gets {
 		a := g.Common().Args
 		owner := a[len(a)-1]
+		type ownerAt struct {
+			f   *ssa.Function
+			v   ssa.Value
+			ctx *tctx
+		}
+		isHandlerFn := func(f *ssa.Function) bool {
+			for _, h := range flatten(ro.MSG) {
+				if h == f {
+					return true
+				}
+			}
+			return false
+		}
+		var owners []ownerAt
 		for _, pair := range w.upValues(g.Parent(), owner, 0) {
 			f := pair[0].(*ssa.Function)
 			v := pair[1].(ssa.Value)
-			// f should be a handler (or reach one directly)
-			msg := msgParam(f)
-			isHandler := false
-			for _, h := range flatten(ro.MSG) {
-				if h == f {
-					isHandler = true
+			if isHandlerFn(f) || parentOf(v) != f {
+				owners = append(owners, ownerAt{f, v, nil})
+				continue
+			}
+			// the address is computed in a body shared by several handlers (from what each handler hands in): one
+			// obligation per handler, the value traced in the context of that handler's call chain
+			var chains [][]*Site
+			var climb func(fn *ssa.Function, below []*Site, depth int)
+			climb = func(fn *ssa.Function, below []*Site, depth int) {
+				for _, cs := range cg.Callers[fn] {
+					if cs.Static != fn || cs.Invoke {
+						continue
+					}
+					chain := append([]*Site{cs}, below...)
+					if isHandlerFn(cs.Caller) {
+						chains = append(chains, chain)
+					} else if depth < 2 {
+						climb(cs.Caller, chain, depth+1)
+					}
 				}
 			}
+			climb(f, nil, 0)
+			if len(chains) == 0 {
+				owners = append(owners, ownerAt{f, v, nil})
+			}
+			for _, ch := range chains {
+				owners = append(owners, ownerAt{ch[0].Caller, v, ctxOfChain(ch[0].Caller, ch)})
+			}
+		}
+		for _, ow := range owners {
+			f, v := ow.f, ow.v
+			// f should be a handler (or reach one directly)
+			msg := msgParam(f)
 			construct := "owner of the modified account in " + funcName(f)
-			if !isHandler || msg == nil {
+			if !isHandlerFn(f) || msg == nil {
 				r.Bad("C09.self", construct, w.Pos(f.Pos()), "the owner address does not come from a message handler by parameter forwarding")
 				continue
 			}
 			named, _ := msg.Type().Underlying().(*types.Pointer).Elem().(*types.Named)
 			signers := w.signerFields(named)
 			o := tr.Origins(v)
+			if ow.ctx != nil {
+				st := &tstate{t: tr, o: newOrigin(), seen: map[string]bool{}}
+				st.trace(v, nil, ow.ctx)
+				o = st.o
+			}
 			var fromFields []string
 			for _, l := range o.Leaves {
 				if l.Kind == "param" && l.V == ssa.Value(msg) && l.Path != "" {
